@@ -123,6 +123,8 @@ pub fn main_gen(args: &[String]) {
     let seed: u64 = args[1].parse().unwrap();
     let mut out = std::io::BufWriter::new(std::fs::File::create(&args[2]).expect("out"));
     let maxattrs: usize = args.get(3).and_then(|s| s.parse().ok()).unwrap_or(6);
+    // how many of the messages are filled up to the 16-bit length limit with many raw attributes
+    let nbig: usize = args.get(4).and_then(|s| s.parse().ok()).unwrap_or(0);
     let mut rng = StdRng::seed_from_u64(seed);
     for i in 0..n {
         let class = *[MessageClass::Request, MessageClass::Indication, MessageClass::Success, MessageClass::Error].choose(&mut rng).unwrap();
@@ -133,7 +135,32 @@ pub fn main_gen(args: &[String]) {
         let na = rng.gen_range(0..=maxattrs);
         let mut kinds: Vec<usize> = (0..20).collect();
         kinds.shuffle(&mut rng);
-        let attrs: Vec<(Box<dyn AttributeWrite>, Value)> = kinds.iter().take(na).map(|k| rand_attr(&mut rng, *k, tid)).collect();
+        let mut attrs: Vec<(Box<dyn AttributeWrite>, Value)> = kinds.iter().take(na).map(|k| rand_attr(&mut rng, *k, tid)).collect();
+        if i < nbig {
+            // fill the body with raw attributes of distinct unknown types (length <= 763 each) up to just below the
+            // limit that still leaves room for the sealing attributes: 65535 - 24 - 36 - 8 bytes
+            attrs.clear();
+            let target = 65535usize - 68 - [0usize, 1, 2, 3, 4, 40][i % 6] * 4;
+            let mut total = 0usize;
+            let mut ty: u16 = 0x7000;
+            loop {
+                let n = [763usize, 762, 761, 760, 700].choose(&mut rng).copied().unwrap();
+                let padded = 4 + (n + 3) / 4 * 4;
+                if total + padded > target {
+                    let rest = target - total;
+                    if rest >= 4 {
+                        let n = rest - 4;
+                        let v: Vec<u8> = (0..n).map(|_| rng.gen()).collect();
+                        attrs.push((Box::new(RawAttribute::new_owned(AttributeType::new(ty), v.clone().into_boxed_slice())), json!({"t": ty, "raw": v})));
+                    }
+                    break;
+                }
+                let v: Vec<u8> = (0..n).map(|_| rng.gen()).collect();
+                attrs.push((Box::new(RawAttribute::new_owned(AttributeType::new(ty), v.clone().into_boxed_slice())), json!({"t": ty, "raw": v})));
+                total += padded;
+                ty += 1;
+            }
+        }
         let mut descs = vec![];
         let mut raws = vec![];
         for (a, d) in &attrs {
